@@ -3,25 +3,25 @@
 // run: ./check C19 --replay replays/C19/tensor.c19_oob_mut_d3.rs
 /// Test generated for harness `tensor::c19_oob_mut_d3` 
 ///
-/// Check for `assertion`: "assertion failed: idx[i] < self.dims[i]"
+/// Check for `assertion`: "VERIF-REACHED: out-of-range index accepted by index_mut"
 
 #[test]
-fn kani_concrete_playback_c19_oob_mut_d3_1518337978619276896() {
+fn kani_concrete_playback_c19_oob_mut_d3_1568931393198906836() {
     let concrete_vals: Vec<Vec<u8>> = vec![
-        // 4ul
-        vec![4, 0, 0, 0, 0, 0, 0, 0],
         // 1ul
         vec![1, 0, 0, 0, 0, 0, 0, 0],
-        // 2ul
-        vec![2, 0, 0, 0, 0, 0, 0, 0],
-        // 3ul
-        vec![3, 0, 0, 0, 0, 0, 0, 0],
+        // 1ul
+        vec![1, 0, 0, 0, 0, 0, 0, 0],
+        // 1ul
+        vec![1, 0, 0, 0, 0, 0, 0, 0],
+        // 0ul
+        vec![0, 0, 0, 0, 0, 0, 0, 0],
+        // 0ul
+        vec![0, 0, 0, 0, 0, 0, 0, 0],
         // 0ul
         vec![0, 0, 0, 0, 0, 0, 0, 0],
         // 1ul
         vec![1, 0, 0, 0, 0, 0, 0, 0],
-        // 2ul
-        vec![2, 0, 0, 0, 0, 0, 0, 0],
     ];
     kani::concrete_playback_run(concrete_vals, c19_oob_mut_d3);
 }
